@@ -116,3 +116,15 @@ func getSetCommandOptions(clock clock.Clock, cmd []string, options SetOptions) (
 		return SetOptions{}, fmt.Errorf("unknown option %s for set command", strings.ToUpper(cmd[0]))
 	}
 }
+
+// encodeValue encodes a stored string, integer or float value as a bulk string, so that every byte of it
+// (including CR and LF) reaches the client unchanged. Values of any other type are refused.
+func encodeValue(command string, value interface{}) ([]byte, error) {
+	switch value.(type) {
+	case string, int, int64, float64:
+		s := fmt.Sprintf("%v", value)
+		return []byte(fmt.Sprintf("$%d\r\n%s\r\n", len(s), s)), nil
+	default:
+		return nil, fmt.Errorf("%s command on non-string item", strings.ToUpper(command))
+	}
+}
